@@ -403,7 +403,7 @@ def check_pruning(rep, tier, seed):
                     e += 1
             rows.append(row + (str(e) if e else ""))
         f = "/".join(rows) + (" w" if white_pushes else " b") + " - - 0 1"
-        d = 2 if tier == "quick" else r.choice([2, 3])
+        d = 2 if (tier == "quick" or len(squares) > 5) else r.choice([2, 3])
         cases.append(["new " + f, "obs", "ttnew", "search %d -1 1" % d] + ["refroot %d" % k for k in range(1, d + 1)])
     for i in range(n):
         root = SMALL[i % len(SMALL)]
@@ -432,9 +432,15 @@ def check_pruning(rep, tier, seed):
                           "obs", "ttnew", "search 2 -1 1", "refroot 1", "refroot 2"])
     stats, kinds = Counter(), Counter()
     rust, rc = core.run_rust(cases)
-    lean, lc = core.run_lean(cases, timeout=1500)
-    if lc:
-        rep.violation("model-vs-impl", "model driver died or timed out", f"{lc}", no_input=True)
+    # the unpruned reference is exponential: one process per case, and a case that exceeds its budget is dropped
+    # (counted in the evidence) — running out of my own budget says nothing about the property
+    lean, lc = core.run_lean(cases, timeout=(120 if tier == "quick" else 400), per_case=True)
+    over = [ci for ci, lo in enumerate(lean) if any(x is None for x in lo)]
+    stats["cases_dropped_model_budget"] = len(over)
+    if [c for c in lc if c != -9]:
+        rep.violation("model-vs-impl", "model driver died", f"{lc}", no_input=True)
+    keep = [ci for ci in range(len(cases)) if ci not in set(over)]
+    cases, rust, lean = [cases[i] for i in keep], [rust[i] for i in keep], [lean[i] for i in keep]
     first = correspondence(rep, "C09", cases, rust, lean, stats, only_ops={"search", "searchroot", "obs", "new", "pushbias", "pushh", "playh"})
     for ci, case in enumerate(cases):
         refs = {}
